@@ -193,6 +193,7 @@ func RunCall(entry string, sr *SReader, data []byte) (res map[string]interface{}
 		if sr.cut < len(d) {
 			d = d[:sr.cut]
 		}
+		d = append(make([]byte, 0, len(d)), d...) // capacity = length: nothing readable behind the bytes given
 		t, er := imagetype.Buf(d)
 		res["type"] = int(t)
 		return res, er
